@@ -39,6 +39,25 @@ func (vfs *OrefaFS) absPath(path string) string {
 	return absPath
 }
 
+// lookupErr returns the error of a failed lookup of absPath, err by default :
+// as a path walk would, it reports first an element of the path that is not a directory.
+// The index must be locked by the caller.
+func (vfs *OrefaFS) lookupErr(absPath string, err error) error {
+	for dirName := absPath; !vfs.isRoot(dirName); {
+		dirName, _ = vfs.splitAbs(dirName)
+
+		if nd, ok := vfs.nodes[dirName]; ok {
+			if !nd.isDir() {
+				return vfs.err.NotADirectory
+			}
+
+			return err
+		}
+	}
+
+	return err
+}
+
 // isRoot returns true if absPath, as returned by absPath, is the key of a root directory.
 func (vfs *OrefaFS) isRoot(absPath string) bool {
 	return len(absPath) == avfs.VolumeNameLen(vfs, absPath)
